@@ -4,10 +4,10 @@ from common import *
 PROPERTY = 'C14'
 def h(nstart, length=5, limit=None):
     d = dict(src='c14_tracestate.cc', defines=['NSTART=%d' % nstart, 'LEN=%d' % length], overrides=TS_OVERRIDES + [SP_RELEASE],
-             models=TS_MODELS + ['libc.c', 'cxxrt.c', 'stdstring.c', 'single_threaded.c', SP_LEAK_MODEL], gen_models=gen_regex_tables, model_defines=['VERIF_NEW_ARRAY_MAX=64'], ir2c_flags=['--new-array-max', '64'])
+             models=TS_MODELS + ['libc.c', 'cxxrt.c', 'stdstring.c', 'single_threaded.c', SP_LEAK_MODEL], gen_models=gen_regex_tables, model_defines=['VERIF_NEW_ARRAY_MAX=64'], ir2c_flags=['--new-array-max', '136'])
     if limit: d['gen_includes'] = patched_trace_state_limit(limit)
     return d
-US = {'re_match': 10, 'bcmp': 8, 'strlen': 8, 'memcmp': 8, 'verif_mem': 50}
+US = {'re_match': 10, 'bcmp': 8, 'strlen': 8, 'memcmp': 8, 'verif_mem': 140}
 HARNESSES = {}
 QUERIES = []
 for ns in (0, 1, 2, 3):
@@ -17,7 +17,8 @@ for ns in (0, 1, 2, 3):
     U = 4 * ns + 6
     for e, sh in (('h_set', 'Set(key,value) with 1-byte key/value over an 8-letter alphabet (valid, invalid, separators; present and absent keys)'), ('h_delete', 'Delete(key) with a 1-byte key over the alphabet'),
                   ('h_header_roundtrip', 'ToHeader -> FromHeader')):
-        QUERIES.append(dict(name='%s_n%d' % (e[2:], ns), harness=tag, entry=e, unwind=U, unwindset=US, rec_unwind=3, tier=tier, timeout=1200,
+        if e == 'h_header_roundtrip': tier = 'thorough'
+        QUERIES.append(dict(name='%s_n%d' % (e[2:], ns), harness=tag, entry=e, unwind=U, unwindset=US, rec_unwind=3, tier=tier, timeout=1200, mem_gb=24,
                             optional_reach=['Set of a new key on a full list returns an unchanged copy'],
                             shape='%d distinct valid 1-byte members; %s' % (ns, sh)))
 HARNESSES['c14_lim3'] = h(3, limit=3)
